@@ -25,12 +25,14 @@ FINISH = dict(level="proof",
               rule="cases = (layer kind, activation(s), shapes, dyadic parameters/inputs/coefficients); distinct = distinct op text; "
                    "non-trivial = batch size >= 2 and at least 2 outputs")
 LAKE_TARGETS = ["SharkVerif.Props.C04", "drv_c04"]
+# ResizeLayer evaluates its images in an OpenMP loop: two threads, no spinning (the machine is shared; schedules are C20's topic)
+ENV = {"OMP_NUM_THREADS": "2", "OMP_WAIT_POLICY": "PASSIVE"}
 ACTS = ["linear", "rectifier", "tanh", "logistic", "fastsigmoid"]
 EXACT_ACTS = ["linear", "rectifier"]
 
 
 def build(ctx):
-    return ctx.harness("c04", ["c04.cpp"])
+    return ctx.harness("c04", ["c04.cpp"], repo_sources=["src/Models/RBFLayer.cpp", "src/Models/CMAC.cpp", "src/Core/Random.cpp"])
 
 
 def dy(r, lo, hi, fracbits):
@@ -83,6 +85,100 @@ def gen_rowact(r):
     return f"rowact {kind} {n} {B} | {vec(r, n * B, lo, 4, 2)} | {vec(r, n * B)}"
 
 
+# ---------------------------------------------------------------- further model types
+def gen_normalizer(r):
+    hb = r.below(2); n = r.range(1, 5); B = r.choice([1, 2, 3, 5])
+    return f"normalizer {hb} {n} {B} | {vec(r, n + (n if hb else 0))} | {vec(r, B * n)}"
+
+
+def gen_classifier(r, probe):
+    """Classifier<LinearModel>: arg-max with ties (small integers), single thresholded output, optional bias"""
+    nIn = r.range(1, 3); nOut = r.range(1, 4); hb = r.below(2); hasBias = r.below(2); B = r.choice([1, 2, 3, 4])
+    ints = r.chance(1, 2)
+    fb = 0 if ints else 2
+    np_ = nOut * nIn + (nOut if hb else 0)
+    bias = vec(r, nOut, -2, 2, fb) if hasBias else ""
+    return f"classifier {nIn} {nOut} {hb} {hasBias} {B} {1 if probe else 0} | {vec(r, np_, -2, 2, fb)} | {bias} | {vec(r, B * nIn, -2, 2, fb)}"
+
+
+def gen_argmax(r):
+    n = r.range(1, 7)
+    return f"argmax {n} | {vec(r, n, -1, 2, r.below(2))}"
+
+
+def _perm(r, n):
+    a = list(range(n))
+    for i in range(n - 1, 0, -1):
+        j = r.below(i + 1); a[i], a[j] = a[j], a[i]
+    return a
+
+
+def gen_pool(r, probe):
+    h = r.range(1, 5); w = r.range(1, 5); d = r.range(1, 2); ph = r.range(1, min(h, 3)); pw = r.range(1, min(w, 3)); B = r.choice([1, 2, 3])
+    nIn = h * w * d; nOut = (h // ph) * (w // pw) * d
+    distinct = r.chance(1, 2)
+    if distinct:      # no ties anywhere: the finite-difference oracle applies
+        xs = " ".join(" ".join(f"{v - nIn // 2}/1" for v in _perm(r, nIn)) for _ in range(B))
+    else:             # many ties: first maximum wins
+        xs = vec(r, B * nIn, -1, 1, 0)
+    return f"pool {h} {w} {d} {ph} {pw} {B} {1 if distinct else 0} {1 if probe else 0} | {xs} | {vec(r, B * nOut)}"
+
+
+def gen_resize(r):
+    h = r.range(1, 4); w = r.range(1, 4); d = r.range(1, 2); oh = r.range(1, 5); ow = r.range(1, 5); B = r.choice([1, 2, 3])
+    return f"resize {h} {w} {d} {oh} {ow} {B} | {vec(r, B * h * w * d)} | {vec(r, B * oh * ow * d)}"
+
+
+def gen_rbf(r):
+    nIn = r.range(1, 3); nOut = r.range(1, 3); tc = r.below(2); tw = r.below(2); B = r.choice([1, 2, 3, 4])
+    return (f"rbf {nIn} {nOut} {tc} {tw} {B} | {vec(r, nIn * nOut, -2, 2, 2)} | {vec(r, nOut, -1, 1, 2)} | "
+            f"{vec(r, B * nIn, -2, 2, 2)} | {vec(r, B * nOut)}")
+
+
+def gen_kexp(r, exact):
+    nIn = r.range(1, 3); nB = r.range(1, 5); nOut = r.range(1, 3); hb = r.below(2); B = r.choice([1, 2, 3, 4])
+    bb = r.choice([0, 1, 2, nB])
+    kern = "linear 0" if exact else f"gauss {dy(r, 1, 8, 3)}"
+    return (f"kexp {kern} {nIn} {nB} {nOut} {hb} {bb} {B} | {vec(r, nB * nIn, -2, 2, 1)} | "
+            f"{vec(r, nB * nOut + (nOut if hb else 0), -2, 2, 1)} | {vec(r, B * nIn, -2, 2, 1)}")
+
+
+def gen_ensemble(r, kind, single_output_ok):
+    M = r.range(1, 4); nIn = r.range(1, 3); hb = r.below(2); B = r.choice([1, 2, 3])
+    nOut = r.range(1, 3) if (kind == "mean" or single_output_ok) else r.range(2, 4)
+    np_ = nOut * nIn + (nOut if hb else 0)
+    ws = " ".join(dy(r, 1, 4, 2) for _ in range(M))
+    return f"ensemble {kind} {M} {nIn} {nOut} {hb} {B} | {ws} | {vec(r, M * np_, -2, 2, 1)} | {vec(r, B * nIn, -2, 2, 1)}"
+
+
+def gen_cmac(r):
+    nIn = r.range(1, 2); nOut = r.range(1, 2); tilings = r.choice([1, 2, 4]); tiles = r.choice([2, 3, 5]); B = r.choice([1, 2, 3])
+    lo, up = r.choice([(0, 1), (-1, 1), (0, 2), (-2, 2)])
+    npar = tiles ** nIn * tilings * nOut
+    xs = " ".join(dy(r, lo, up, 3) for _ in range(B * nIn))
+    return f"cmac {nIn} {nOut} {tilings} {tiles} {B} | {lo} {up} | {vec(r, npar, -2, 2, 1)} | {xs} | {vec(r, B * nOut)}"
+
+
+# findings of the real code that are modelled *as repaired*; corpus/C04/<file> holds the minimal input
+FINDINGS = {
+    "F-C04-1": "classifier-single-eval-ignores-bias",
+    "F-C04-2": "pooling-derivative-accumulates",
+    "F-C04-3": "ensemble-vote-single-output-overflow",
+}
+
+
+def load_corpus():
+    d = os.path.join(core.VERIF, "corpus", "C04")
+    out = []
+    for fn in sorted(os.listdir(d)) if os.path.isdir(d) else []:
+        if not fn.endswith(".txt"): continue
+        lines = [l.rstrip("\n") for l in open(os.path.join(d, fn))]
+        fid = next((l.split(":", 1)[1].strip() for l in lines if l.startswith("# finding:")), None)
+        ops = [l for l in lines if l.strip() and not l.startswith("#")]
+        out.append((fn, fid, ops))
+    return out
+
+
 def _parse_fields(line):
     out = {}
     for tok in re.finditer(r"(\w+)=((?:[^ =]| (?![A-Z][A-Z0-9]*=))*)", line):
@@ -97,13 +193,17 @@ def _num(tok):
     return int(m) * 2.0 ** int(e)
 
 
+TOL_FIELDS = ("GP", "GX", "D", "GP2", "GX2", "TPV", "TS", "TE")
+
+
 def cmp_tol(a, b):
-    """equal up to 1e-12 relative in the gradient fields GP/GX/D; everything else must match exactly"""
+    """equal up to 1e-12 relative in the gradient fields GP/GX/D and the fields T* (values behind exp/log and BLAS sums);
+    everything else must match exactly"""
     fa, fb = _parse_fields(a), _parse_fields(b)
     if fa.keys() != fb.keys(): return False
     for k in fa:
         if fa[k] == fb[k]: continue
-        if k not in ("GP", "GX", "D", "GP2", "GX2"): return False
+        if k not in TOL_FIELDS: return False
         xa = [_num(t) for row in fa[k].split(";") for t in row.split(",") if t.strip()]
         xb = [_num(t) for row in fb[k].split(";") for t in row.split(",") if t.strip()]
         if len(xa) != len(xb): return False
@@ -111,8 +211,25 @@ def cmp_tol(a, b):
     return True
 
 
+def _finding_key(ops, res):
+    """name the known defects of the real code (stable keys, see findings_proposed/C04.md)"""
+    op = next((o for o in ops if not o.startswith("mode")), "")
+    hd = op.split("|")[0].split()
+    tags = " ".join(res.oracle)
+    if hd[:1] == ["classifier"] and len(hd) == 7 and hd[4] == "1" and "batch-row-differs-from-single" in tags:
+        return "F-C04-1"
+    if hd[:1] == ["pool"] and "input-derivative-depends-on-previous-buffer-content" in tags:
+        return "F-C04-2"
+    if hd[:2] == ["ensemble", "vote"] and len(hd) == 7 and hd[4] == "1" and res.crash:
+        return "F-C04-3"
+    return None
+
+
 def classify(ops, res):
     kinds = sorted({(o.split()[0] if o.startswith("chain") else " ".join(o.split()[:2])) for o in ops if not o.startswith("mode")})
+    fid = _finding_key(ops, res)
+    if fid:
+        return f"{fid}:{FINDINGS[fid]}", f"{fid} ({FINDINGS[fid]}) on {ops}"
     if res.crash:
         return f"crash:{'+'.join(kinds)}", f"harness aborted on {ops}"
     if res.oracle:
@@ -133,24 +250,56 @@ def run(ctx):
     exe = build(ctx); drv = ctx.driver("drv_c04")
     if not exe or not drv:
         return
+    # corpus first; a corpus file tagged `# finding: <id>` probes a defect of the real code that the model has *as
+    # repaired*: if it still fails the finding is reported (KNOWN-FINDING if listed) and the generated stream keeps
+    # the rest of the property checked around it (probe flags off / trigger avoided); on a repaired tree everything is on
+    present = set()
+    corpus = load_corpus()
+    ctx.cov["corpus_cases"] = len(corpus)
+    for fn, fid, ops in corpus:
+        n = core.correspond(ctx, f"K-C04[corpus:{fn}]", [ops], [exe], [drv], classify, cmp=cmp_tol, env=ENV)
+        if n and fid:
+            present.add(fid)
+    ctx.cov["findings_present"] = sorted(present)
     r = ctx.rng.fork("c04")
-    per = 60 if ctx.quick else 800
+    per = 200 if ctx.quick else 2000
+    half = per // 2
+    p1, p2, p3 = "F-C04-1" not in present, "F-C04-2" not in present, "F-C04-3" not in present
     exact_cases = [["mode rat", gen_dense(r, True)] for _ in range(per)] + [["mode rat", gen_concat(r, True)] for _ in range(per)] + \
-                  [["mode rat", gen_chain(r, True)] for _ in range(per)]
+                  [["mode rat", gen_chain(r, True)] for _ in range(per)] + \
+                  [["mode rat", gen_normalizer(r)] for _ in range(half)] + [["mode rat", gen_classifier(r, p1)] for _ in range(per)] + \
+                  [["mode rat", gen_argmax(r)] for _ in range(half)] + [["mode rat", gen_pool(r, p2)] for _ in range(per)] + \
+                  [["mode rat", gen_kexp(r, True)] for _ in range(half)] + [["mode rat", gen_cmac(r)] for _ in range(half)]
     float_cases = [["mode float", gen_dense(r, False)] for _ in range(per)] + [["mode float", gen_concat(r, False)] for _ in range(per)] + \
-                  [["mode float", gen_rowact(r)] for _ in range(per)] + [["mode float", gen_chain(r, False)] for _ in range(2 * per)]
+                  [["mode float", gen_rowact(r)] for _ in range(per)] + [["mode float", gen_chain(r, False)] for _ in range(2 * per)] + \
+                  [["mode float", gen_resize(r)] for _ in range(half)] + [["mode float", gen_rbf(r)] for _ in range(per)] + \
+                  [["mode float", gen_kexp(r, False)] for _ in range(half)] + \
+                  [["mode float", gen_ensemble(r, "mean", True)] for _ in range(half)] + [["mode float", gen_ensemble(r, "vote", p3)] for _ in range(half)]
     for c in exact_cases + float_cases:
         ctx.hist("op_kinds", c[0].split()[1] + ":" + " ".join(c[1].split()[:2]))
     ctx.cov["evaluations"] = len(exact_cases) + len(float_cases)
-    ctx.cov["distinct_nontrivial"] = len({c[1] for c in exact_cases + float_cases if c[1].split("|")[0].split()[-1] not in ("1",)})
+    ctx.cov["distinct_nontrivial"] = len({c[1] for c in exact_cases + float_cases if _batch_size(c[1]) >= 2})
     ctx.sample({"ops": exact_cases[0]}); ctx.sample({"ops": float_cases[-1]})
-    core.correspond(ctx, "K-C04[exact]", exact_cases, [exe], [drv], classify)
-    core.correspond(ctx, "K-C04[float]", float_cases, [exe], [drv], classify, cmp=cmp_tol)
+    core.correspond(ctx, "K-C04[exact]", exact_cases, [exe], [drv], classify, env=ENV)
+    core.correspond(ctx, "K-C04[float]", float_cases, [exe], [drv], classify, cmp=cmp_tol, env=ENV)
+
+
+_B_POS = {"dense": 5, "concat": 8, "chain": 1, "rowact": 3, "normalizer": 3, "classifier": 5, "pool": 6, "resize": 6, "rbf": 5,
+          "kexp": 8, "ensemble": 6, "cmac": 5}
+
+
+def _batch_size(op):
+    hd = op.split("|")[0].split()
+    pos = _B_POS.get(hd[0])
+    try:
+        return int(hd[pos]) if pos is not None else 2
+    except (IndexError, ValueError):
+        return 2
 
 
 def replay(ctx, rep):
     exe = build(ctx); drv = ctx.driver("drv_c04")
-    res = core.run_case(ctx, [exe], [drv], rep["ops"], cmp=cmp_tol)
+    res = core.run_case(ctx, [exe], [drv], rep["ops"], cmp=cmp_tol, env=ENV)
     print("\n".join(f"impl : {a}\nmodel: {b}" for a, b in zip(res.impl, res.model)))
     print("OK" if res.ok else "FAILS")
     return 0 if res.ok else 1
